@@ -165,6 +165,9 @@ TPropRes CoreSMTSolver::handleNewSplitClauses(SplitClauses & splitClauses) {
                 assert(value(litToPropogate) == l_True);
             }
         }
+#ifdef OPENSMT_VERIF
+        verifTraceTrail("split");
+#endif
     }
     return res;
 }
@@ -332,6 +335,9 @@ CoreSMTSolver::handleUnsat()
         uncheckedEnqueue(learnt_clause[0], cr);
     }
 
+#ifdef OPENSMT_VERIF
+    verifTraceTrail("bj");
+#endif
     varDecayActivity();
     claDecayActivity();
     return TPropRes::Propagate;
